@@ -10,9 +10,22 @@ def exes():
             "tsan": build.link("tsan-nopool", "c17_tsan", ["kernel.c", "c17_tsan.c"], "-Wl,--wrap=exit -Wl,--wrap=time")}
 def prepare(): exes()
 
-MIX2 = ["plain|plain-latex", "plain|email", "email|email2", "random-foot|random-foot2", "epub|plain", "plain+plain-latex|plain-latex+plain", "epub|email", "critic-a|critic-r", "opml-in|meta", "de|plain"]
+MIX2 = ["plain|plain-latex", "plain|email", "email|email2", "random-foot|random-foot2", "epub|plain", "plain+plain-latex|plain-latex+plain", "epub|email", "critic-a|critic-r", "opml-in|meta", "de|plain", "img-a|img-b", "sink-a|sink-b", "sink-b-latex|sink-a-fodt"]
 MIX3 = ["plain|plain-latex|plain", "plain|email|plain-latex", "email|email2|random-foot"]
 BENIGN = {"lc_lookup", "yyRuleName", "yyTokenName", "s_error_descs"}
+
+def run_sched(exe, bound, dl, mixes):
+    """one explorer process per mix, side by side (the mixes are independent searches); returns (stdout lines, errors)"""
+    from concurrent.futures import ThreadPoolExecutor
+    def one(m):
+        r = subprocess.run([exe, str(bound), str(int(dl)), m], capture_output=True, env=core.driver_env())
+        return m, r
+    lines = []; errs = []
+    with ThreadPoolExecutor(min(len(mixes), max(1, (os.cpu_count() or 8) // 2))) as ex:
+        for m, r in ex.map(one, mixes):
+            lines += r.stdout.decode(errors="replace").splitlines()
+            if r.returncode != 0: errs.append("c17_sched %s exited %d: %s" % (m, r.returncode, r.stderr.decode(errors="replace")[-300:]))
+    return lines, errs
 
 def tsan_signatures(err):
     sigs = {}
@@ -47,9 +60,9 @@ def run(tier):
     rep.assumptions = ["interference below the granularity of these calls is the ThreadSanitizer pass's job (a detector, not an enumerator)", "writable globals are re-inventoried with nm on every run and listed in the evidence"]
     bound = 2 if tier == "quick" else 3
     mixes = MIX2 if tier == "quick" else MIX2 + MIX3
-    r = subprocess.run([ex["sched"], str(bound), str(int(dl * 0.6))] + mixes, capture_output=True, env=core.driver_env())
+    lines, errs = run_sched(ex["sched"], bound, dl * 0.5, mixes)
     sched = trans = 0; complete = True; distinct = 0
-    for ln in r.stdout.decode(errors="replace").splitlines():
+    for ln in lines:
         try: x = json.loads(ln)
         except ValueError: continue
         if x["t"] == "bound":
@@ -60,19 +73,19 @@ def run(tier):
             trans += x["points"]
         elif x["t"] == "internal":
             rep.internal_errors.append(x["what"])
-    if r.returncode != 0: rep.internal_errors.append("c17_sched exited %d: %s" % (r.returncode, r.stderr.decode(errors="replace")[-300:]))
+    rep.internal_errors += errs
     npoints = sum(1 for _ in []) 
     rep.states, rep.transitions, rep.traces = max(sched, 1), max(sched, 1), sched
     rep.add_level("schedules-bound%d" % bound, sched, sched, complete, time.time() - t0, distinct, "all schedules with <= %d preemptions for %d thread mixes" % (bound, len(mixes)))
     rep.add_sample(dict(mix="email|email2", threads=2, jobs=["mail <a@b.c> here (EXT_OBFUSCATE, html)", "<mailto:x@y.zz> text (html)"], bound=bound))
     rep.add_sample(dict(mix="plain|plain-latex", note="negative control: no shared state touched"))
-    # 2b. the same explorer on a build instrumented with -finstrument-functions: EVERY function entry of the library is a scheduling
+    # 2b. the same explorer on a build instrumented with -finstrument-functions: EVERY function entry and return of the library is a scheduling
     #     point; all schedules with at most one preemption (two tiny documents, incl. the text-level CriticMarkup passes, OPML import and metadata queries): catches state shared through a variable the
     #     accessor-level hooks do not know about (a hoisted static buffer, a lazily built table)
-    t2 = time.time(); fmix = ["tiny-a|tiny-b", "tiny-b|tiny-c", "critic-a|critic-r", "opml-in|meta"] if tier == "quick" else ["tiny-a|tiny-b", "tiny-b|tiny-c", "tiny-a|tiny-c", "tiny-a|tiny-a", "critic-a|critic-r", "critic-r|critic-r", "opml-in|meta", "opml-in|opml-in", "de|tiny-a", "meta|tiny-b"]
-    r = subprocess.run([ex["sched_fn"], "1", str(int(dl * 0.25))] + fmix, capture_output=True, env=core.driver_env())
+    t2 = time.time(); fmix = ["tiny-a|tiny-b", "tiny-b|tiny-c", "critic-a|critic-r", "opml-in|meta", "img-a|img-b"] if tier == "quick" else ["img-a|img-b", "sink-a|sink-b", "sink-b-latex|sink-a-fodt", "sink-a|sink-b-latex", "tiny-a|tiny-b", "tiny-b|tiny-c", "tiny-a|tiny-c", "tiny-a|tiny-a", "critic-a|critic-r", "critic-r|critic-r", "opml-in|meta", "opml-in|opml-in", "de|tiny-a", "meta|tiny-b"]
+    lines, errs = run_sched(ex["sched_fn"], 1, dl * 0.4, fmix)
     fsched = 0; fcomplete = True; fdist = 0
-    for ln in r.stdout.decode(errors="replace").splitlines():
+    for ln in lines:
         try: x = json.loads(ln)
         except ValueError: continue
         if x["t"] == "bound":
@@ -81,9 +94,9 @@ def run(tier):
         elif x["t"] == "viol":
             rep.add_violation(x["sig"] + ":function-granularity", x["detail"], dict(mix=x["mix"], preemptions=x["preemptions"], preempted_at=x["schedule"]), replay=dict(kind="sched_fn", mix=x["mix"], bound=1))
         elif x["t"] == "internal": rep.internal_errors.append(x["what"])
-    if r.returncode != 0: rep.internal_errors.append("c17_sched (instrumented) exited %d: %s" % (r.returncode, r.stderr.decode(errors="replace")[-300:]))
+    rep.internal_errors += errs
     rep.states += fsched; rep.transitions += fsched; rep.traces += fsched
-    rep.add_level("schedules-function-granularity-bound1", fsched, fsched, fcomplete, time.time() - t2, max(fdist, 2), "all schedules with <= 1 preemption at ANY function entry of the library, %d mixes of two tiny documents" % len(fmix))
+    rep.add_level("schedules-function-granularity-bound1", fsched, fsched, fcomplete, time.time() - t2, max(fdist, 2), "all schedules with <= 1 preemption at ANY function entry or return of the library, %d mixes of two tiny documents" % len(fmix))
     # 3. free-running TSan pass
     t1 = time.time()
     env = core.driver_env(); env["TSAN_OPTIONS"] = "halt_on_error=0:report_signal_unsafe=0"
